@@ -257,4 +257,37 @@ PROPS.update({
     },
 })
 
+PROPS.update({
+    "C11": {
+        "coq": "Properties/C11.v",
+        "pinchecks": ENGINE_PINS + ["PinChecks/PcBody_fcachedenforcer.v", "PinChecks/PcBody_fdefaultcache.v", "PinChecks/PcBody_femitter.v", "PinChecks/PcCached.v"],
+        "gen": "c11",
+        "level_text": "Coq theorems over Model/Cached.v: cache coherence is an invariant of every history over the complete mutating surface and every request "
+                      "(c11_coherent_reachable), a call that keeps the cache changes no decision (c11_noclear_no_change), the cached step refines the plain step "
+                      "(c11_call_refines), hence c11_same_decisions: for ALL histories of calls and plain/context-qualified requests the cached outputs equal the "
+                      "uncached ones - for every eviction behaviour (c11_same_decisions_any); the role manager's own has_link cache likewise (c11_rm_same_answers). "
+                      "The table of which CachedEnforcer method clears is pinned to the source (inventory pin); necessity witnesses for each clear",
+        "level_note": ENGINE_NOTE + "; assumed: the 64-bit SipHash of request values is injective on the keys in play; mini-moka is modelled as a map that may forget",
+        "explanation": "theorems c11_*; Enforcer and CachedEnforcer in lock-step over the complete mutating surface, every request issued twice",
+        "assumptions": ["hash injectivity on explored keys", "state changes made through handles obtained from get_role_manager()/get_mut_model() bypass the API (out of scope)"],
+    },
+    "C18": {
+        "coq": "Properties/C18.v",
+        "pinchecks": ENGINE_PINS,
+        "gen": "c18",
+        "level_text": "Coq theorems: after a successful set_model / set_adapter the state is st_equiv (identical answers to EVERY query, c18_ask_equiv) - indeed model "
+                      "store, adapter and role manager are equal - to the enforcer freshly built from the same definition, adapter and components (c18_set_model, "
+                      "c18_set_adapter and the _now/_leftovers forms); set_role_manager / set_effector / add_function under the decidable Synced hypothesis; the "
+                      "invariant Settled is kept by every sequence of reconfiguration calls (c18_sequences). Each hypothesis (auto-build on, adapter not marked "
+                      "filtered, no leftover role functions, Synced, ...) has a refutation witness; c18_set_model_needs_registration documents repaired D14. "
+                      "PARTIAL: sequences interleaved with incremental management calls are covered by the single-call theorems only when syncedb holds",
+        "partial": "c18_sequences covers reconfiguration calls and reloads; after incremental removals the exact-equality hypothesis Synced can fail (isolated nodes stay in "
+                   "the graph) although the enforcers are observationally equal: that case rests on the correspondence run",
+        "level_note": ENGINE_NOTE,
+        "explanation": "theorems c18_*; reconfigured enforcer vs freshly built twin on every query",
+        "assumptions": ["the new model calls only role definitions it defines (registered role functions are never unregistered)",
+                        "the adapter is not pre-marked filtered (the constructor then skips the load while set_adapter does not)"],
+    },
+})
+
 NOT_CLAIMED = {}
